@@ -32,5 +32,37 @@ inline std::vector<std::pair<std::string, std::string>> hash_twins(std::uint64_t
    }
    return out;
 }
+
+// A word of the SAME LENGTH and the same std::hash<u8string_view> value as `target`, different from it (empty when the target has
+// fewer than 9 bytes - its hash then involves no block that could absorb a change - or when this platform's hash is another one).
+// The last byte is replaced by `last`; the first 8-byte block is then solved for, running the hash backwards from the target's
+// state before the final mixing.  The result is verified with std::hash before it is handed out.
+inline std::string same_length_hash_twin(const std::string& target, unsigned char last)
+{
+   constexpr std::uint64_t MUL = (std::uint64_t(0xc6a4a793UL) << 32) + 0x5bd1e995UL, SEED = 0xc70f6907UL;
+   auto shift_mix = [](std::uint64_t v) { return v ^ (v >> 47); };
+   std::uint64_t IM = MUL; for (int i = 0; i < 6; ++i) IM *= 2 - MUL * IM;
+   auto f = [&](std::uint64_t k) { return shift_mix(k * MUL) * MUL; };
+   auto finv = [&](std::uint64_t d) { return shift_mix(d * IM) * IM; };
+   const std::size_t n = target.size();
+   if (n < 9 || static_cast<unsigned char>(target[n - 1]) == last) return "";
+   auto tail_of = [&](const std::string& w) { std::uint64_t t = 0; for (std::size_t j = n; j-- > (n & ~std::size_t(7)); ) t = (t << 8) + static_cast<unsigned char>(w[j]); return t; };
+   // state of the target before the final mixing
+   std::uint64_t h = SEED ^ (std::uint64_t(n) * MUL);
+   for (std::size_t i = 0; i + 8 <= n; i += 8) { std::uint64_t k; std::memcpy(&k, target.data() + i, 8); h = (h ^ f(k)) * MUL; }
+   if (n & 7) { h ^= tail_of(target); h *= MUL; }
+   std::string w = target; w[n - 1] = char(last);
+   // backwards through the twin's tail and its blocks 2.. to the state required after block 1
+   std::uint64_t s = h;
+   if (n & 7) { s = (s * IM) ^ tail_of(w); }
+   for (std::size_t i = (n & ~std::size_t(7)); i > 8; i -= 8) { std::uint64_t k; std::memcpy(&k, w.data() + i - 8, 8); s = (s * IM) ^ f(k); }
+   const std::uint64_t h0 = SEED ^ (std::uint64_t(n) * MUL);
+   const std::uint64_t k1 = finv((s * IM) ^ h0);
+   std::memcpy(w.data(), &k1, 8);
+   std::hash<std::u8string_view> hs;
+   auto v = [](const std::string& x) { return std::u8string_view(reinterpret_cast<const char8_t*>(x.data()), x.size()); };
+   if (w == target || hs(v(w)) != hs(v(target))) return "";
+   return w;
+}
 }
 #endif
